@@ -43,18 +43,27 @@ impl Connection {
   }
 
   pub(crate) fn recv(&mut self) -> Result<Message> {
-    // The message header is four bytes of message length, plus a one byte instruction.
-    let mut header = [0u8; 5];
+    // The message header is four bytes of message length. A zero length is a
+    // keep-alive, which carries neither an instruction byte nor a payload.
+    let length = loop {
+      let mut prefix = [0u8; 4];
+      self
+        .stream
+        .read_exact(&mut prefix)
+        .context(error::Network)?;
+
+      let length = u32::from_be_bytes(prefix);
+
+      if length > 0 {
+        break length;
+      }
+    };
+
+    let mut flavour = [0u8; 1];
     self
       .stream
-      .read_exact(&mut header)
+      .read_exact(&mut flavour)
       .context(error::Network)?;
-
-    let length = u32::from_be_bytes(
-      header[..4]
-        .try_into()
-        .invariant_unwrap("bound is checked by read_exact and the length of buf"),
-    );
 
     let payload = if length > 1 {
       let mut payload = Vec::new();
@@ -68,7 +77,7 @@ impl Connection {
     };
 
     Ok(Message {
-      flavour: message::Flavour::from(header[4]),
+      flavour: message::Flavour::from(flavour[0]),
       payload,
     })
   }
